@@ -24,7 +24,7 @@ def cold_start(root, tag, n, uds):
         line = f'{"unix" if uds else "tcp"} cold start: clients={n} exit0={ok} correct_objects={good} servers_alive={len(sv)} requests_seen_by_reachable_server={st.get("compile_requests")}'
         if ok != n or good != n: fails.append({'kind': 'client_failed_at_cold_start', 'detail': line + ' stderr=' + ' | '.join(r.stderr.decode(errors="replace")[:80] for r in rs if r.returncode != 0)[:300], 'ops': [line]})
         if len(sv) != 1: fails.append({'kind': 'extra_server_unix' if uds else 'extra_server_tcp', 'detail': line, 'ops': [line]})
-        elif st.get('compile_requests') != n and not uds: fails.append({'kind': 'requests_not_on_one_server', 'detail': line, 'ops': [line]})
+        elif st.get('compile_requests') != n: fails.append({'kind': 'requests_not_on_one_server', 'detail': line, 'ops': [line]})
         return line, fails
     finally:
         sc.stop(); sc.kill(); shutil.rmtree(d, ignore_errors=True)
@@ -37,7 +37,12 @@ def unix_witness(root, tag):
         sc.run(['--start-server']); time.sleep(0.3); sc.run(['--start-server']); time.sleep(0.5)
         sv = sc.server_pids()
         line = f'unix socket: --start-server twice -> {len(sv)} server processes alive'
-        return line, ([{'kind': 'extra_server_unix', 'detail': line + ' [deterministic witness: second server unlinks and rebinds the socket]', 'ops': [line]}] if len(sv) != 1 else [])
+        fails = [{'kind': 'extra_server_unix', 'detail': line + ' [deterministic witness: second server unlinks and rebinds the socket]', 'ops': [line]}] if len(sv) != 1 else []
+        # a socket left behind by a server that was killed must not keep the next one from starting
+        sc.kill(); time.sleep(0.2); r = sc.run(['--start-server']); time.sleep(0.4); sv2 = sc.server_pids()
+        line2 = f'unix socket: server killed (socket file stays), --start-server again -> rc={r.returncode}, {len(sv2)} server processes alive'
+        if r.returncode != 0 or len(sv2) != 1: fails.append({'kind': 'stale_socket_blocks_start', 'detail': line2, 'ops': [line, line2]})
+        return line + ' ; ' + line2, fails
     finally:
         sc.stop(); sc.kill(); shutil.rmtree(d, ignore_errors=True)
 
